@@ -379,6 +379,37 @@ def special_histories(chk: Check):
                 with tt.config_context(confidence_level=0.9):      # the same value as the enclosing context
                     body()
             run(f"nested-same-value:{body_name}", lambda: {"confidence_level": 0.9}, nested)
+        # config_context used as a DECORATOR (contextlib's context managers are decorators too), on a function that calls
+        # itself and on one that raises: every call enters a fresh context, the outermost exit restores
+        before = snapshot()
+
+        @tt.config_context(alpha=0.11, my_option="inside")
+        def rec(depth):
+            if tt.get_config("alpha") != 0.11:
+                raise AssertionError("not in force")
+            if depth == 2:
+                tt.set_config(equal_var=True)
+            if depth == 0:
+                raise Boom
+            if depth > 0:
+                try:
+                    rec(depth - 1)
+                except Boom:
+                    pass
+        chk.case(("special-history", "decorator"))
+        chk.branch("special:decorator")
+        try:
+            rec(3)
+            rec(1)
+        except AssertionError:
+            chk.fail("inside a function decorated with config_context the requested option is not in force", dict(history="decorator"))
+        except Exception as ex:  # noqa: BLE001
+            chk.fail("a function decorated with config_context raised", dict(history="decorator", error=repr(ex)))
+        after = snapshot()
+        if {k: v[0] for k, v in after.items()} != {k: v[0] for k, v in before.items()}:
+            chk.fail("after leaving config_context the configuration is not what it was before",
+                     dict(history="decorator: a decorated function that calls itself, changes the configuration and raises",
+                          before={k: v[0] for k, v in before.items()}, after={k: v[0] for k, v in after.items()}))
         # mutable / stateful option values
         rng_obj, lst, dct = np.random.default_rng(5), [1, 2], {"a": 1}
         tt.set_config(my_rng=rng_obj, my_list=lst, my_dict=dct, n_obs=(100, 200))
